@@ -4,10 +4,14 @@ import (
 	"fmt"
 	"go/token"
 	"go/types"
+	"regexp"
 	"strings"
 
 	"golang.org/x/tools/go/ssa"
 )
+
+// optionSelfRe: a read of an Option field or a call of an Option method in a normalised term.
+var optionSelfRe = regexp.MustCompile(`(^|[^A-Za-z])Option\.[A-Za-z]+\(|\(\*Option\)\.[A-Za-z]+\(`)
 
 func init() {
 	register(&Property{
@@ -258,6 +262,32 @@ func runC18(c *Ctx, r *Report, tier string) {
 			_, takes := c.Requires(cp, isInstr(iff), func(l Lit) bool {
 				return l.Pos && strings.HasPrefix(l.Term, "call:(*Option).canArgument(lookup(lookup.shortNames(")
 			}, nil)
+			// once the rest of the cluster is known to be the option's value, the walk over the cluster is over: the
+			// characters of VALUE are not looked up as option letters (the parser stops at the first rune there)
+			if l := innermost(loopsOf(b.Parent()), b); l != nil {
+				att := iff.Block().Succs[0]
+				if c.cond(iff.Cond).Pos {
+					att = iff.Block().Succs[1]
+				}
+				back := false
+				seen := map[*ssa.BasicBlock]bool{}
+				var walk func(x *ssa.BasicBlock)
+				walk = func(x *ssa.BasicBlock) {
+					if !l.Blocks[x] || seen[x] || back {
+						return
+					}
+					if x == l.Header {
+						back = true
+						return
+					}
+					seen[x] = true
+					for _, s := range x.Succs {
+						walk(s)
+					}
+				}
+				walk(att)
+				r.Check(!back, "TOKENS", cpn, "the cluster walk stops at an attached argument", c.ipos(iff), "the edge `rest of the cluster is the value` leaves the loop over the cluster's characters", "the loop goes on to the next character: the characters of VALUE are looked up as option letters, so the option found (and the context reached) differs from the parser's")
+			}
 			r.Check(first && takes, "TOKENS", cpn, "attached-argument test applies to the first character of a cluster that takes an argument", c.ipos(iff), "REQ(byte offset 0) ∧ REQ(canArgument())", fmt.Sprintf("first necessary=%v canArgument necessary=%v", first, takes))
 		}
 		r.Check(nW >= 1, "TOKENS", cpn, "a cluster with an attached argument does not consume the next word", c.pos(cp.Pos()), "the cluster's byte length is compared with the byte length of its first character", "no such comparison: a multi-byte short option followed by its value as a separate word is taken for `-oVALUE`, and the value word is then read as a command or positional")
@@ -391,6 +421,17 @@ func runC18(c *Ctx, r *Report, tier string) {
 			r.OK("REATTACH", cpn, "separate word: no prefix, whole word matched", c.ipos(in), "completeValue(v, \"\", lastarg)")
 		case pre == "("+strip+"#0 + conv[string](call:unicode/utf8.DecodeRuneInString("+split+"#0)#0))":
 			seenForms["short"] = true
+			// the parser attaches `-oVALUE` for every option that can take an argument (splitShortConcatArg tests
+			// canArgument() alone): the attached-value completion is chosen on that test and on nothing else the
+			// option says about itself
+			var extra []string
+			for _, l := range c.depsOf(cp, in) {
+				t := strings.ReplaceAll(l.Term, "(*Option).canArgument(", "")
+				if optionSelfRe.MatchString(t) {
+					extra = append(extra, trunc(l.String(), 80))
+				}
+			}
+			r.Check(len(extra) == 0, "REATTACH", cpn, "attached short form is chosen for every option that can take an argument", c.ipos(in), "REQ(option found) ∧ REQ(canArgument()), no other attribute of the option", "also depends on "+strings.Join(extra, "; ")+": the parser accepts `-oVALUE` for this option, completion echoes the word instead of completing VALUE")
 			r.Check(m == "slice("+split+"#0, call:unicode/utf8.DecodeRuneInString("+split+"#0)#1, _)", "REATTACH", cpn, "attached short form: remainder after the rune's encoded width", c.ipos(in), "completeValue(v, prefix+string(rune), optname[width:])", "partial value is "+trunc(m, 140))
 		case pre == "(("+strip+"#0 + "+split+"#0) + "+split+"#1)":
 			seenForms["inline"] = true
